@@ -17,7 +17,7 @@ WHAT = {
     "C20": "test cases were not run exactly once in order, results do not add up, or the exit status does not report the run",
 }
 ACTIONS = ["StartDoc", "PickLimit", "RunTest", "OnCode", "ValidateDoc", "EndDoc", "Finish"]
-FOCUS_ACTIONS = {"C05": ["OnUnknown"], "C14": ["OnTimeout"], "C15": ["OnSkip"], "C20": ["OnSkip", "OnDetached", "OnUnknown"]}
+FOCUS_ACTIONS = {"C05": ["OnUnknown"], "C14": ["OnTimeout"], "C15": ["OnSkip"], "C20": ["OnSkip", "OnDetached", "OnUnknown", "OnScriptExit"]}
 QUICK = {"C05": 450, "C14": 200, "C15": 400, "C20": 260}
 THOROUGH = {"C05": 4000, "C14": 400, "C15": 3000, "C20": 3000}
 
@@ -99,7 +99,8 @@ def run(prop, tier, replay=None):
                             return True
                 return False
             small = [v for v in allsc if sum(len(d["tests"]) for d in v["sc"]["docs"]) <= 1 or (prop in ("C20", "C05") and rare(v)) or detcut(v) or v["sc"].get("compat")
-                     or (prop == "C05" and (v["sc"]["pre"] or v["sc"]["app"]))]
+                     or (prop == "C05" and (v["sc"]["pre"] or v["sc"]["app"]))
+                     or any(t["beh"] == "exitscript" and t["code"] == 3 for d in v["sc"]["docs"] for t in d["tests"])]
             rest = [v for v in allsc if v not in small]
             chosen = small + rnd.sample(rest, max(0, want - len(small)))
         cov["scenarios_enumerated"] = len(allsc)
